@@ -213,7 +213,7 @@ func nonNegative(w *World, idx *T, p *Path) bool {
 	if idx.Op == "sel" && idx.A[0].Op == "deref" {
 		// a counter field: only ever 0 or itself + 1
 		f := idx.S
-		for _, fn := range libFuncs(w) {
+		for _, fn := range libRoots(w) {
 			ps, _ := w.Paths(fn)
 			for _, pp := range ps {
 				for _, e := range pp.Events {
